@@ -17,7 +17,7 @@ use std::time::{Duration, Instant, SystemTime};
 
 const NS: i128 = 1_000_000_000;
 
-fn dur(ns: u128) -> Option<Duration> {
+pub fn dur(ns: u128) -> Option<Duration> {
     let secs = ns / NS as u128;
     if secs > u64::MAX as u128 {
         return None;
@@ -25,7 +25,7 @@ fn dur(ns: u128) -> Option<Duration> {
     Some(Duration::new(secs as u64, (ns % NS as u128) as u32))
 }
 
-fn wall(ns: i128) -> Option<SystemTime> {
+pub fn wall(ns: i128) -> Option<SystemTime> {
     if ns >= 0 {
         SystemTime::UNIX_EPOCH.checked_add(dur(ns as u128)?)
     } else {
@@ -33,7 +33,7 @@ fn wall(ns: i128) -> Option<SystemTime> {
     }
 }
 
-fn wall_ns(t: SystemTime) -> i128 {
+pub fn wall_ns(t: SystemTime) -> i128 {
     match t.duration_since(SystemTime::UNIX_EPOCH) {
         Ok(d) => d.as_nanos() as i128,
         Err(e) => -(e.duration().as_nanos() as i128),
@@ -44,7 +44,7 @@ thread_local! {
     static ORIGIN: Instant = Instant::now() + Duration::from_secs(1 << 40);
 }
 
-fn mono(ns: i128) -> Option<Instant> {
+pub fn mono(ns: i128) -> Option<Instant> {
     ORIGIN.with(|o| {
         if ns >= 0 {
             o.checked_add(dur(ns as u128)?)
@@ -54,7 +54,7 @@ fn mono(ns: i128) -> Option<Instant> {
     })
 }
 
-fn mono_ns(t: Instant) -> i128 {
+pub fn mono_ns(t: Instant) -> i128 {
     ORIGIN.with(|o| {
         if t >= *o {
             t.duration_since(*o).as_nanos() as i128
